@@ -80,12 +80,22 @@ func c06verify(c *Ctx, p *load.Program, pkgPath, prefix, tag string) {
 		return
 	}
 	// loop index and element
-	var I *ssa.BinOp
+	var I ssa.Value
 	for _, ins := range outer.Header.Instrs {
 		if b, ok := ins.(*ssa.BinOp); ok && b.Op == token.ADD {
 			if ph, ok := b.X.(*ssa.Phi); ok && ph.Block() == outer.Header {
 				if one, ok := constInt(b.Y); ok && one == 1 {
 					I = b
+				}
+			}
+		}
+	}
+	if I == nil {
+		// `for i := 0; i < len(v.Signatures); i++`
+		for _, ins := range outer.Header.Instrs {
+			if ph, ok := ins.(*ssa.Phi); ok {
+				if _, isCounted := facts.CountedLoopIndex(ph); isCounted {
+					I = ph
 				}
 			}
 		}
@@ -243,34 +253,67 @@ func c06verify(c *Ctx, p *load.Program, pkgPath, prefix, tag string) {
 		if isC && cst.Value != nil && cst.Value.ExactString() == "false" {
 			// classify
 			fs := acceptFacts(r)
-			// facts inside the inner duplicate loop etc.
-			class := ""
-			for _, f := range fs {
+			classOf := func(f facts.Fact) string {
 				x, op, y, ok := cmpOf(f)
 				if !ok {
-					continue
+					// `seen` of a comma-ok lookup of the recovered address in the set of accepted signers
+					if ex, isEx := f.Cond.(*ssa.Extract); isEx && f.Pol && ex.Index == 1 {
+						if lk, isLk := ex.Tuple.(*ssa.Lookup); isLk && lk.CommaOk && isRecAddr(lk.Index) {
+							return "duplicate-signer"
+						}
+					}
+					return ""
 				}
 				switch {
 				case op == token.LSS && lenOf(x) == addresses && lenOf(y) != nil:
 					if b, fl := fieldLoad(lenOf(y)); b == v && fl != nil && fl.Name() == "Signatures" {
-						class = "count-exceeds-list"
+						return "count-exceeds-list"
 					}
 				case op == token.LEQ && lenOf(x) == addresses && isSigIndex(y):
-					class = "index-out-of-range"
+					return "index-out-of-range"
 				case op == token.LEQ && isSigIndex(x) && isLast(y):
-					class = "non-increasing-index"
+					return "non-increasing-index"
 				case op == token.NEQ && (isNilConst(y) || isNilConst(x)):
 					for _, e := range []ssa.Value{x, y} {
 						if ex, isEx := e.(*ssa.Extract); isEx && ex.Tuple == rec && ex.Index == 1 {
-							class = "recover-failed"
+							return "recover-failed"
 						}
 					}
 				case op == token.NEQ && (isRecAddr(x) && isAddrAtIndex(y) || isRecAddr(y) && isAddrAtIndex(x)):
-					class = "address-mismatch"
+					return "address-mismatch"
 				case op == token.EQL && (isRecAddr(x) || isRecAddr(y)) && !(isAddrAtIndex(x) || isAddrAtIndex(y)):
-					if class == "" {
-						class = "duplicate-signer"
+					return "duplicate-signer"
+				}
+				return ""
+			}
+			class := ""
+			for _, f := range fs {
+				if cl := classOf(f); cl != "" && (class == "" || cl != "duplicate-signer") {
+					class = cl
+				}
+			}
+			if class == "" {
+				// several causes may share one `return false` (`if a || b { return false }`): then
+				// every path to it passes a branch edge that is one of the causes
+				var es []facts.Edge
+				var cls []string
+				for _, b := range fn.Blocks {
+					if len(b.Succs) != 2 || len(b.Instrs) == 0 {
+						continue
 					}
+					iff, isIf := b.Instrs[len(b.Instrs)-1].(*ssa.If)
+					if !isIf {
+						continue
+					}
+					for k := 0; k < 2; k++ {
+						if cl := classOf(facts.Fact{Cond: iff.Cond, Pol: k == 0, Atom: facts.Atom(iff.Cond, k == 0)}); cl != "" {
+							es = append(es, facts.Edge{B: b.Index, K: k})
+							cls = append(cls, cl)
+						}
+					}
+				}
+				if len(es) > 0 && facts.PassesAny(r.Block(), nil, es...) {
+					class = "one of the recognised causes on every path"
 				}
 			}
 			R.Check(prefix+".reject-set", R.Key(prefix+".reject-set", "VerifySignatures", "return-false:"+tag), c.rel(p.Pos(instrPos(r))), "rejection is one of the six causes implied by the property (class: "+class+")", class != "", "undecided: unclassified rejection", facts.Atoms(fs)...)
@@ -338,6 +381,41 @@ func c06distinct(c *Ctx, p *load.Program, fn *ssa.Function, outer *facts.Loop, p
 		}
 	}
 	if acc == nil {
+		// the same with a set: seen[addr] is tested (comma-ok) before addr is accepted, and
+		// seen[addr] = … is executed in every completed iteration
+		var mu *ssa.MapUpdate
+		eachInstr(fn, func(i ssa.Instruction) {
+			if m, ok := i.(*ssa.MapUpdate); ok && outer.Body()[m.Block()] && isRecAddr(m.Key) {
+				mu = m
+			}
+		})
+		if mu != nil {
+			notSeen := false
+			for _, f := range facts.At(mu, nil) {
+				if ex, isEx := f.Cond.(*ssa.Extract); isEx && !f.Pol && ex.Index == 1 {
+					if lk, isLk := ex.Tuple.(*ssa.Lookup); isLk && lk.CommaOk && lk.X == mu.Map && isRecAddr(lk.Index) {
+						notSeen = true
+					}
+				}
+			}
+			every := true
+			cuts := facts.Cuts{}
+			for _, lt := range outer.Latches {
+				for k, sc := range lt.Succs {
+					if sc == outer.Header {
+						cuts[facts.Edge{B: lt.Index, K: k}] = true
+					}
+				}
+			}
+			for _, lt := range outer.Latches {
+				if !facts.BeforeFrom(outer.Header, lt.Instrs[len(lt.Instrs)-1], cuts, func(i ssa.Instruction) bool { return i == ssa.Instruction(mu) }) {
+					every = false
+				}
+			}
+			R.Check(prefix+".accept-guards", key, pos, "every accepted signer address is recorded in a set and looked up in it before the next is accepted (no guardian counted twice, also for lists with repeated addresses)", notSeen && every,
+				fmt.Sprintf("recorded in every iteration=%v; recorded only under the fact `not seen before`=%v", every, notSeen))
+			return
+		}
 		R.Fail(prefix+".accept-guards", key, pos, "no guardian is counted twice (lists with repeated addresses)", "no accumulator of accepted signer addresses found: with a guardian list that contains the same address at two positions, the same key can sign at both and be counted twice")
 		return
 	}
@@ -467,6 +545,9 @@ func c06noPanic(c *Ctx, p *load.Program, fn *ssa.Function, prefix, tag string, a
 }
 
 func isRangeIndex(v ssa.Value) bool {
+	if _, ok := facts.CountedLoopIndex(v); ok {
+		return true // `for i := 0; i < len(x); i++`
+	}
 	b, ok := v.(*ssa.BinOp)
 	if !ok || b.Op != token.ADD {
 		return false
